@@ -312,7 +312,7 @@ func (d *badgerNodeDB) Finalize(roots []node.Root) error { // nolint: gocyclo
 	rootIt := tx.NewIterator(badger.IteratorOptions{Prefix: rootsPrefix})
 	defer rootIt.Close()
 
-	var removeMetaKeys [][]byte
+	var removeMetaKeys, removeRootKeys [][]byte
 	finalizedSeqNos := make(map[byte]uint16)
 	maybeLoneNodes := make(map[byte]map[string]struct{})
 	notLoneNodes := make(map[byte]map[string]struct{})
@@ -378,6 +378,10 @@ func (d *badgerNodeDB) Finalize(roots []node.Root) error { // nolint: gocyclo
 				nonEmptyVisitedRoots++
 			}
 		case false:
+			// Remove the root node of the non-finalized root so that the root is no longer reported
+			// as present (its nodes are removed or replaced below and can no longer be resolved).
+			removeRootKeys = append(removeRootKeys, rootIt.Item().KeyCopy(nil))
+
 			// Remove any non-finalized roots. It is safe to remove these nodes as Badger's version
 			// control will make sure they are not removed if they are resurrected in any later
 			// version as long as we make sure that these nodes are not shared with any finalized
@@ -484,6 +488,13 @@ func (d *badgerNodeDB) Finalize(roots []node.Root) error { // nolint: gocyclo
 	for _, key := range removeMetaKeys {
 		if err := batchMeta.Delete(key); err != nil {
 			return fmt.Errorf("mkvs/pathbadger: failed to delete key: %w", err)
+		}
+	}
+	// Root nodes of discarded roots live at the version timestamp. They are removed together with
+	// the updated nodes index so that a redone finalization still sees them.
+	for _, key := range removeRootKeys {
+		if err := batchMeta.DeleteAt(key, versionToTs(version)); err != nil {
+			return fmt.Errorf("mkvs/pathbadger: failed to delete root node: %w", err)
 		}
 	}
 
